@@ -22,7 +22,11 @@ macro_rules! fork_by_ref {
         pub fn $name() {
             const CAP: usize = $cap;
             let mut pulls = 0i32;
-            let mut fork = counting(&mut pulls).fork(Bounded::from([0i32; CAP]));
+            // an EMPTY ring buffer in any position: fresh (start 0) or previously used and drained
+            let start: usize = kani::any();
+            kani::assume(start < CAP);
+            let rb = unsafe { Bounded::from_raw_parts(start, 0, [-1i32; CAP]) };
+            let mut fork = counting(&mut pulls).fork(rb);
             let (mut a, mut b) = fork.by_ref();
             let (mut na, mut nb) = (0i32, 0i32);
             let (mut a_full_lead, mut b_full_lead, mut level_again) = (false, false, false);
@@ -55,6 +59,7 @@ macro_rules! fork_by_ref {
             kani::cover!(level_again, "branches level again");
             kani::cover!(a_full_lead, "A was ahead by the full capacity at some point");
             kani::cover!(b_full_lead, "B was ahead by the full capacity at some point");
+            kani::cover!(start == CAP - 1 && a_full_lead, "ring buffer handed over at its last slot");
             kani::cover!(true, "end");
         }
     };
